@@ -17,9 +17,24 @@
 (*            objects (as the validator of the library reads "mention      *)
 (*            every annotated and every predicted sound event exactly      *)
 (*            once"), never on the wrapped SoundEvent, so Valid does not   *)
-(*            depend on ase / pse                                          *)
+(*            depend on ase / pse;                                         *)
+(*            pu: pu[k] = j > 0 when prediction k carries the SAME UUID as *)
+(*            annotation j (0 = its own uuid): legal, they are objects of  *)
+(*            different classes (a detector re-scoring annotations and     *)
+(*            keeping their ids).  Sources are predictions and targets are *)
+(*            annotations, so Valid stays per side and ignores pu.         *)
+(*            Further pairings: "copy_features" / "copy_rec_tag" -- the    *)
+(*            predicted clip is a later-enriched COPY of the annotated clip*)
+(*            (same uuid, recording and times; clip features added / a tag *)
+(*            added to its copy of the recording).  What identifies a clip *)
+(*            in this library is its uuid (hash, AOEF registry, validators)*)
+(*            so an enriched copy is still that clip                       *)
 (*  "match"   one match with / without source s and target t (0 / 1)       *)
-(*  "project" annotation project over clips 1..3: task[k], ann[k] booleans *)
+(*  "project" annotation project over clips 1..3: task[k], ann[k] booleans;*)
+(*            enr[k]: the task and the clip annotation hold two copies of  *)
+(*            clip k that differ in non-identity content (0 = identical,   *)
+(*            1 = the task's copy has clip features, 2 = the annotation's  *)
+(*            copy of the recording has an extra tag); Valid is on uuids   *)
 (*  "clip"    start st and end en (integer ticks of unit u), written as    *)
 (*            enc in "num", "int", "str", "str_num", "num_str"             *)
 (*  "score"   field (one of Fields), value v (one of ScoreValues), enc     *)
@@ -39,7 +54,7 @@ MatchesOK(A, P, ms) ==
     /\ \A k \in DOMAIN ms : (ms[k][1] = 0 \/ ms[k][1] \in P) /\ (ms[k][2] = 0 \/ ms[k][2] \in A)    \* nothing foreign
     /\ \A a \in A : Count(ms, 2, a) = 1                                  \* every annotated event exactly once
     /\ \A p \in P : Count(ms, 1, p) = 1                                  \* every predicted event exactly once
-SameClip(pairing) == pairing \in {"same", "copy"}
+SameClip(pairing) == pairing \in {"same", "copy", "copy_features", "copy_rec_tag"}       \* same uuid
 
 ScoreValues == <<"-eps", "-0", "0", "eps", "half", "1-eps", "1", "1+eps", "nan", "inf", "none">>
 InUnit(v) == v \in {"-0", "0", "eps", "half", "1-eps", "1"}             \* -0.0 = 0 lies in [0, 1]
